@@ -157,6 +157,8 @@ type Verifier struct {
 	tagType   map[int]types.Type
 	globals   map[string]int
 	Opts      Options
+	// candidate invariants that failed and are therefore not used (Houdini)
+	disabledAuto map[string]bool
 }
 
 type Options struct {
@@ -175,7 +177,7 @@ type Options struct {
 
 func newVerifier(p *Program, cs *ContractSet, o Options) *Verifier {
 	return &Verifier{P: p, CS: cs, fieldIDs: map[string]int{}, fieldName: map[int]string{}, typeTags: map[string]int{},
-		tagType: map[int]types.Type{}, globals: map[string]int{}, Opts: o}
+		tagType: map[int]types.Type{}, globals: map[string]int{}, Opts: o, disabledAuto: map[string]bool{}}
 }
 
 func (v *Verifier) fieldID(st types.Type, idx int) int {
@@ -636,6 +638,9 @@ func (c *Ctx) assumeTypeInv(v Term, t types.Type, st *State) {
 		if st != nil {
 			c.assume(Term{fmt.Sprintf("(< (rootid %s) %s)", v.S, st.alloc.S), SBool})
 		}
+	case SIface:
+		// the nil interface is unique
+		c.assume(Term{fmt.Sprintf("(=> (= (itag %s) 0) (= %s niliface))", v.S, v.S), SBool})
 	}
 }
 
